@@ -38,8 +38,8 @@ theorem register_ok {cfg : Cfg} {req : Req} {ext : Ext} {m : Nat} {a : Option St
 /-- the response state after `processBdReq`: both pointers name one object, whatever the subnet override did -/
 theorem final_aliased {cfg : Cfg} {req : Req} {ext : Ext} {hf : Heap} (h : processBdReq cfg req ext = .ok hf) :
     hf.wp = some hf.rp := by
-  obtain ⟨h0, _, hpre, rfl⟩ := processBdReq_ok h
-  cases subnetOverride_cases cfg req ext h0 with
+  obtain ⟨h0, _, hpre, hsr⟩ := processBdReq_cases h
+  cases hsr with
   | same => exact hpre.aliased
   | minSub s ip hs hw hr ht hx => simp [hpre.aliased]
   | pfxSub s ip id pre fl hs hw hr ht hd hp hx => rfl
@@ -61,8 +61,8 @@ theorem client_view_eq_forwarded (cfg : Cfg) (req : Req) (ext : Ext) (m : Nat) (
 theorem port_always_set (cfg : Cfg) (req : Req) (ext : Ext) (m : Nat) (a : Option String) (c : Resp) (f : Fwd)
     (h : registerBidirectional cfg req ext m a = .ok c f) : c.port.isSome = true := by
   obtain ⟨hf, hbd, rfl, _, _⟩ := register_ok h
-  obtain ⟨h0, _, hpre, rfl⟩ := processBdReq_ok hbd
-  cases subnetOverride_cases cfg _ ext h0 with
+  obtain ⟨h0, _, hpre, hsr⟩ := processBdReq_cases hbd
+  cases hsr with
   | same => exact hpre.port
   | minSub s ip hs hw hr ht hx =>
     have := hpre.port
@@ -83,7 +83,7 @@ theorem station_ends_with_same (cfg : Cfg) (req : Req) (ext : Ext) (m : Nat) (a 
   obtain ⟨hfwd, _, _⟩ := client_view_eq_forwarded cfg req ext m a c f h
   have hport := port_always_set cfg req ext m a c f h
   simp only [hfwd, stationApply, clientParams]
-  refine ⟨?_, ?_, ?_, rfl⟩
+  refine ⟨?_, ?_, ?_, trivial⟩
   · intro x hx hne; simp [hx, hne]
   · intro x hx; simp [hx]
   · cases hp : c.port with
@@ -111,9 +111,9 @@ theorem overrides_only_if_allowed (cfg : Cfg) (req : Req) (ext : Ext) (m : Nat) 
       ∀ d4 d6 dport, (stationApply req.disable req.params d4 d6 dport f.resp).params = req.params := by
   obtain ⟨hf, hbd, rfl, _, _⟩ := register_ok h
   have hnone : (hf.get hf.rp).params = none := by
-    obtain ⟨h0, _, hpre, rfl⟩ := processBdReq_ok hbd
+    obtain ⟨h0, _, hpre, hsr⟩ := processBdReq_cases hbd
     have hp := hpre.noParams hdis
-    cases subnetOverride_cases cfg _ ext h0 with
+    cases hsr with
     | same => exact hp
     | minSub s ip hs hw hr ht hx =>
       rcases h0 with ⟨o0, o1, rp, wp⟩
@@ -122,7 +122,6 @@ theorem overrides_only_if_allowed (cfg : Cfg) (req : Req) (ext : Ext) (m : Nat) 
   refine ⟨hnone, by simp [clientParams, hnone], ?_⟩
   intro d4 d6 dport
   have hst := (station_ends_with_same cfg req ext m a _ f h d4 d6 dport).2.2.2
-  simp only at hst
   rw [hst]; simp [clientParams, hnone]
 
 /-- the override subnets configured for the transport of the request -/
@@ -137,10 +136,10 @@ theorem substitute_in_configured_subnet (cfg : Cfg) (req : Req) (ext : Ext) (m :
     (h : registerBidirectional cfg req ext m a = .ok c f) (hne : c.v4 ≠ selected4 req ext) :
     ∃ x s, c.v4 = some x ∧ s ∈ subnetsFor cfg req ∧ 0 < s.weight ∧ s.contains x = true := by
   obtain ⟨hf, hbd, rfl, _, _⟩ := register_ok h
-  obtain ⟨h0, _, hpre, rfl⟩ := processBdReq_ok hbd
+  obtain ⟨h0, _, hpre, hsr⟩ := processBdReq_cases hbd
   have hsel : selected4 { req with forgedResp := none } ext = selected4 req ext := rfl
   rw [hsel] at hpre
-  cases subnetOverride_cases cfg _ ext h0 with
+  cases hsr with
   | same => exact absurd hpre.v4 hne
   | minSub s ip hs hw hr ht hx =>
     refine ⟨ip, s, ?_, ?_, hw, randAddr_contains (hwf s (List.mem_append_left _ hs)) hr⟩
@@ -156,7 +155,7 @@ theorem excluded_never_replaced (cfg : Cfg) (req : Req) (ext : Ext) (m : Nat) (a
     (h : registerBidirectional cfg req ext m a = .ok c f) (x : Nat) (hsel : selected4 req ext = some x)
     (e : Subnet) (he : e ∈ cfg.exclusions) (hin : e.contains x = true) : c.v4 = some x := by
   obtain ⟨hf, hbd, rfl, _, _⟩ := register_ok h
-  obtain ⟨h0, _, hpre, rfl⟩ := processBdReq_ok hbd
+  obtain ⟨h0, _, hpre, hsr⟩ := processBdReq_cases hbd
   have hsel' : selected4 { req with forgedResp := none } ext = selected4 req ext := rfl
   rw [hsel', hsel] at hpre
   have hexc : excluded cfg (h0.get h0.rp).v4 = true := by
@@ -164,7 +163,7 @@ theorem excluded_never_replaced (cfg : Cfg) (req : Req) (ext : Ext) (m : Nat) (a
     unfold excluded
     rw [List.any_eq_true]
     exact ⟨e, he, hin⟩
-  cases subnetOverride_cases cfg _ ext h0 with
+  cases hsr with
   | same => exact hpre.v4
   | minSub s ip hs hw hr ht hx => rw [hexc] at hx; cases hx
   | pfxSub s ip id pre fl hs hw hr ht hd hp hx => rw [hexc] at hx; cases hx
@@ -197,7 +196,7 @@ theorem every_weighted_subnet_used (cfg : Cfg) (req : Req) (ext : Ext) (m : Nat)
     have := (List.getElem?_eq_some_iff.mp hs).2
     simp only [List.getElem_map]; rw [this]; exact hw
   obtain ⟨uN, uD, hlt, hch⟩ := choose_reachable _ i hi hwi
-  obtain ⟨hf, hbd, rfl, _, _⟩ := register_ok h0
+  obtain ⟨hf, hbd, _, _, _⟩ := register_ok h0
   obtain ⟨hh, hps, hpre, rfl⟩ := processBdReq_ok hbd
   have hsel : selected4 { req with forgedResp := none } ext = selected4 req ext := rfl
   rw [hsel] at hpre
@@ -209,15 +208,14 @@ theorem every_weighted_subnet_used (cfg : Cfg) (req : Req) (ext : Ext) (m : Nat)
       hh.updR fun r => { r with v4 := some ip } := by
     unfold subnetOverride
     simp [henf, hexc, ht, hpct, hch, hs, hip]
-  -- the wrapper stage does not read the draws either
-  unfold registerBidirectional at h0 ⊢
-  simp only at h0 ⊢
   have hbd' : processBdReq cfg { req with forgedResp := none } { ext with uNum := uN, uDen := uD } =
       .ok (hh.updR fun r => { r with v4 := some ip }) := by
     unfold processBdReq; rw [hps']; simp only; rw [hsub]
+  -- the wrapper stage does not read the draws either
+  unfold registerBidirectional at h0
+  simp only at h0
   rw [hbd] at h0
-  rw [hbd']
-  simp only at h0 ⊢
+  simp only at h0
   split at h0
   · cases h0
   · rename_i fw hw
@@ -231,8 +229,15 @@ theorem every_weighted_subnet_used (cfg : Cfg) (req : Req) (ext : Ext) (m : Nat)
         · cases hw
         · rename_i hsec; simp [hsec]
       obtain ⟨fw', hw'⟩ := hw'
-      refine ⟨uN, uD, _, fw', hlt, ?_, ip, ?_, randAddr_contains hwf hip⟩
-      · rw [hw']; simp only; rw [if_pos hsend]
+      refine ⟨uN, uD, (hh.updR fun r => { r with v4 := some ip }).get (hh.updR fun r => { r with v4 := some ip }).rp,
+        fw', hlt, ?_, ip, ?_, randAddr_contains hwf hip⟩
+      · unfold registerBidirectional
+        simp only
+        rw [hbd']
+        simp only
+        rw [hw']
+        simp only
+        rw [if_pos hsend]
       · rcases hh with ⟨o0, o1, rp, wp⟩
         cases rp <;> simp [Heap.updR, Heap.upd, Heap.get]
     · cases h0
